@@ -780,7 +780,9 @@ class WaveSpectrum(DatasetWrapper):
         range = {NAME_F: self._range(fmin, fmax)}
 
         property = property.fillna(0)
-        return np.trapz(
+        # np.trapz was removed in numpy 2; np.trapezoid is its replacement.
+        trapezoid = getattr(np, "trapezoid", None) or getattr(np, "trapz")
+        return trapezoid(
             property.isel(**range) * self.e.isel(**range),  # type: ignore
             self.frequency[range],
         ) / self.m0(fmin, fmax)
